@@ -196,6 +196,7 @@ class Ctx(object):
 
     # ---- decisions -------------------------------------------------------------------------
     def decide(self, term, aux=None):
+        raw = term
         term = z3.simplify(term)
         if z3.is_true(term):
             return True
@@ -208,7 +209,9 @@ class Ctx(object):
         i = len(self.trail)
         if i >= MAX_DECISIONS:
             raise Inconclusive('decision depth cap %d reached' % MAX_DECISIONS)
-        h = canon_hash(term)
+        # the replay check hashes the term as the program built it (deterministic structure); the
+        # simplifier's normal form depends on AST ids and may differ between a path and its replay
+        h = canon_hash(raw)
         if i < len(self.prefix):
             taken, forced, ph = self.prefix[i][:3]
             if ph != h:
@@ -246,13 +249,14 @@ class Ctx(object):
 
     def concretize(self, term):
         """Fork over the values of an Int term (its range must be bounded by constraints)."""
-        term = z3.simplify(term)
-        if z3.is_int_value(term):
-            return term.as_long()
-        tid = term.get_id()
+        simp = z3.simplify(term)
+        if z3.is_int_value(simp):
+            return simp.as_long()
+        tid = simp.get_id()
         if tid in self.conc:
             return self.conc[tid]
-        self.keep.append(term)
+        self.keep.append(simp)
+        # decisions are made (and hashed for the replay check) on the term as the program built it
         for _ in range(100000):
             i = len(self.trail)
             if i < len(self.prefix):
@@ -261,7 +265,7 @@ class Ctx(object):
                 # concretisation from already known facts (no trail entry), i.e. the value is
                 # implied by the constraints so far, and any model of them yields it.
                 v = self.prefix[i][3]
-                if v is None or canon_hash(z3.simplify(term == v)) != self.prefix[i][2]:
+                if v is None or canon_hash(term == v) != self.prefix[i][2]:
                     r, mdl = self._check_with([])
                     if r != z3.sat:
                         raise Inconclusive('replayed prefix infeasible (engine bug)')
@@ -288,7 +292,9 @@ def canon_hash(t):
     global _COMM
     if _COMM is None:
         _COMM = {z3.Z3_OP_AND, z3.Z3_OP_OR, z3.Z3_OP_EQ, z3.Z3_OP_DISTINCT, z3.Z3_OP_ADD,
-                 z3.Z3_OP_MUL, z3.Z3_OP_IFF if hasattr(z3, 'Z3_OP_IFF') else z3.Z3_OP_EQ}
+                 z3.Z3_OP_MUL, z3.Z3_OP_IFF if hasattr(z3, 'Z3_OP_IFF') else z3.Z3_OP_EQ,
+                 z3.Z3_OP_BADD, z3.Z3_OP_BMUL, z3.Z3_OP_BAND, z3.Z3_OP_BOR, z3.Z3_OP_BXOR,
+                 z3.Z3_OP_XOR}
     if z3.is_app(t):
         d = t.decl()
         k = d.kind()
